@@ -124,6 +124,10 @@ func (oidc *RemoteOidcAuthenticator) Authenticate(requestContext context.Context
 	validIssuers = append(validIssuers, oidc.IssuerAliases...)
 
 	ok = slices.ContainsFunc(validIssuers, func(issuer string) bool {
+		if issuer == "" {
+			// jwt.WithIssuer("") validates nothing: an empty alias must not match every token
+			return false
+		}
 		v := jwt.NewValidator(jwt.WithIssuer(issuer))
 		err := v.Validate(claims)
 		return err == nil
@@ -135,6 +139,10 @@ func (oidc *RemoteOidcAuthenticator) Authenticate(requestContext context.Context
 
 	if len(oidc.Subjects) > 0 {
 		ok = slices.ContainsFunc(oidc.Subjects, func(subject string) bool {
+			if subject == "" {
+				// jwt.WithSubject("") validates nothing: an empty entry must not match every token
+				return false
+			}
 			v := jwt.NewValidator(jwt.WithSubject(subject))
 			err := v.Validate(claims)
 			return err == nil
